@@ -710,17 +710,27 @@ fn gen_ising(g: &mut SplitMix64, nvars: usize) -> (Vec<((usize, usize), f64)>, f
     (edges, transverse, cutoff)
 }
 
+/// Documented energy offset of the Ising sampler, from the constructor arguments only (exact for dyadic inputs):
+/// sum over edges of |J| plus N * (Gamma + |h|) — every diagonal weight is shifted to be non-negative.
+fn ising_offset(edges: &[((usize, usize), f64)], nvars: usize, transverse: f64, longitudinal: f64) -> f64 {
+    edges.iter().map(|(_, j)| j.abs()).sum::<f64>() + nvars as f64 * (transverse + longitudinal.abs())
+}
+
 fn mode_ising(a: &Args) {
     let mut g = SplitMix64::new(a.seed ^ 0x151);
     let cases = if a.thorough { 300 } else { 40 };
     // (a) timesteps_measure on a real sampler against a clone stepped one timestep at a time
-    for _ in 0..cases {
+    for ci in 0..cases {
         let nvars = g.range(2, 6) as usize;
         let (edges, tr, cutoff) = gen_ising(&mut g, nvars);
         let beta = *g.pick(&[0.5, 1.0, 2.0, 4.0]);
         let t = g.range(1, 80) as usize;
         let f = g.range(1, 14) as usize;
-        let mut q = Ising::new_with_rng(edges, tr, 0.0, cutoff, SplitMix64::new(g.next()), None);
+        // longitudinal field of both signs (and none); the documented offset comes from the arguments, not get_offset()
+        let h: f64 = [0.0, -0.75, 0.5, -0.25, 1.25, -1.5][ci % 6];
+        let off = ising_offset(&edges, nvars, tr, h);
+        let mut q = Ising::new_with_rng(edges, tr, h, cutoff, SplitMix64::new(g.next()), None);
+        let off_reported = q.get_offset();
         q.timesteps(g.range(0, 20) as usize, beta);
         let mut q2 = q.clone();
         let (samples, e) = q.timesteps_measure(
@@ -740,7 +750,6 @@ fn mode_ising(a: &Args) {
             ns.push(q2.get_n());
             states.push(q2.state_ref().to_vec());
         }
-        let off = q2.get_offset();
         let mut oracle = Ok(());
         let want: Vec<&Vec<bool>> = (1..=t / f).map(|k| &states[k * f - 1]).collect();
         if samples.len() != want.len() || samples.iter().zip(want.iter()).any(|(a, b)| a != *b) {
@@ -750,8 +759,14 @@ fn mode_ising(a: &Args) {
             let mean = (1..=t / f).map(|k| ns[k * f - 1] as f64).sum::<f64>() / (t / f) as f64;
             let doc = -(mean / beta) + off;
             if !close(e, doc) {
-                oracle = Err(format!("real sampler: energy {} but -<n>/beta+offset = {}", e, doc));
+                oracle = Err(format!(
+                    "real sampler (h = {}): energy {} but -<n>/beta + offset = {} with the documented offset sum|J| + N(Gamma+|h|) = {} (get_offset() says {})",
+                    h, e, doc, off, off_reported
+                ));
             }
+        }
+        if !close(off_reported, off) {
+            oracle = Err(format!("real sampler (h = {}): get_offset() = {} but sum|J| + N(Gamma+|h|) = {}", h, off_reported, off));
         }
         if q.state_ref() != q2.state_ref() || q.get_n() != q2.get_n() {
             oracle = Err("real sampler: final state differs from T single steps".into());
@@ -772,19 +787,21 @@ fn mode_ising(a: &Args) {
         let f = g.range(1, 9) as usize;
         let parallel = ci % 2 == 1;
         let ladder = ci % 3 != 0;
-        let h = if ci % 4 == 3 { *g.pick(&[-0.5, 0.25, 0.75]) } else { 0.0 };
+        let h: f64 = if (ci / 2) % 2 == 1 { [-0.5, 0.25, -1.25, 0.75][(ci / 4) % 4] } else { 0.0 };
         // a beta ladder, or (every other ladder case) one common beta so that only the Hamiltonians differ
         let common_beta = ladder && ci % 6 < 3;
         let mut tc: DefaultTemperingContainer<SplitMix64, SplitMix64> = TemperingContainer::new(SplitMix64::new(g.next()));
         let mut betas = vec![];
         let mut offs = vec![];
+        let mut docs: Vec<f64> = vec![];
         for i in 0..nrep {
             let beta = if common_beta { 1.0 } else { [0.5, 1.0, 2.0, 4.0][i % 4] };
             // slot i: couplings scaled by (8 + i)/8, field by (8 + 2i)/8, longitudinal by (4 + i)/4 (all dyadic)
             let (sj, sg, sh) = if ladder { ((8 + i) as f64 / 8.0, (8 + 2 * i) as f64 / 8.0, (4 + i) as f64 / 4.0) } else { (1.0, 1.0, 1.0) };
             let e: Vec<((usize, usize), f64)> = edges.iter().map(|(ab, j)| (*ab, j * sj)).collect();
+            // the slot's documented offset, from the constructor arguments; get_offset() as captured at construction
+            docs.push(ising_offset(&e, nvars, tr * sg, h * sh));
             let q = Ising::new_with_rng(e, tr * sg, h * sh, cutoff, SplitMix64::new(g.next()), None);
-            // the slot's offset, captured at construction
             offs.push(q.get_offset());
             tc.add_qmc_stepper(q, beta).unwrap();
             betas.push(beta);
@@ -829,9 +846,15 @@ fn mode_ising(a: &Args) {
             if r[i].0 != want[i] {
                 oracle = Err(format!("real replicas: slot {} sampled states differ from the single-step process", i));
             }
-            let doc = nseq[i].iter().map(|n| -(*n as f64 / betas[i]) + offs[i]).sum::<f64>() / t as f64;
+            let doc = nseq[i].iter().map(|n| -(*n as f64 / betas[i]) + docs[i]).sum::<f64>() / t as f64;
             if !close(r[i].1, doc) {
-                oracle = Err(format!("real replicas: slot {} energy {} but per-step average {}", i, r[i].1, doc));
+                oracle = Err(format!(
+                    "real replicas (h = {}): slot {} energy {} but the per-step average of -n/beta + offset is {} with the documented offset {} (get_offset() said {})",
+                    h, i, r[i].1, doc, docs[i], offs[i]
+                ));
+            }
+            if !close(offs[i], docs[i]) {
+                oracle = Err(format!("real replicas (h = {}): slot {}: get_offset() = {} at construction but sum|J| + N(Gamma+|h|) = {}", h, i, offs[i], docs[i]));
             }
             if tc.graph_ref()[i].0.state_ref() != tc2.graph_ref()[i].0.state_ref() {
                 oracle = Err(format!("real replicas: slot {} final state differs", i));
@@ -856,12 +879,15 @@ fn mode_ising(a: &Args) {
             f,
             nrep,
             rats(&betas),
-            rats(&offs),
+            rats(&docs),
             nseq.iter().map(|v| list(v).replace(',', ".")).collect::<Vec<_>>().join(",")
         );
         let out = r.iter().map(|x| format!("{} {}", x.0.len(), fl(x.1))).collect::<Vec<_>>().join(" ");
         emit(true, &input, &out, Some(oracle));
         stat("ising_swaps_accepted", tc.get_total_swaps());
+        if h < 0.0 {
+            stat("ising_tempering_negative_h", 1);
+        }
     }
     stat("ising_ladder_cases", ladder_cases);
     stat("ising_ladder_cases_with_accepted_swap", ladder_with_swap);
@@ -987,7 +1013,7 @@ fn mode_generic(a: &Args) {
                 // into_qmc registers [-J, J, J, -J] per edge and [-h, 0, 0, h] per site with offset => sum|J| + N|h|
                 let nvars = g.range(2, 5) as usize;
                 let (edges, tr, cutoff) = gen_ising(g, nvars);
-                let h = if ci % 2 == 0 { 0.0 } else { *g.pick(&[-0.75, 0.5, 1.25, -0.25]) };
+                let h: f64 = if ci % 2 == 0 { 0.0 } else { *g.pick(&[-0.75, 0.5, 1.25, -0.25]) };
                 let off = edges.iter().map(|(_, j)| j.abs()).sum::<f64>() + nvars as f64 * h.abs();
                 (Ising::new_with_rng(edges, tr, h, cutoff, SplitMix64::new(g.next()), None).into_qmc(), off, Ok(()))
             } else {
